@@ -21,10 +21,10 @@ INFO = {
              'from all four naming conventions and the (A3,I2) quirk forms; plus Fortran-style SAVE files and the 7 shipped files. '
              'Distinct = distinct case descriptor; non-trivial = >= 2 blocks and >= 1 optional item present.'),
     'require': {
-        'quick': {'counters': {'roundtrips': 300, 'byte_identity_checks': 300, 'fortran_style_files': 60, 'shipped_files': 3,
+        'quick': {'counters': {'roundtrips': 300, 'byte_identity_checks': 300, 'object_unchanged_by_write_checks': 300, 'repeated_writes_same_object': 50, 'fortran_style_files': 60, 'shipped_files': 3,
                                'records_resliced_in_situ': 1000},
                   'seen': {'flavour': 2, 'timing_x_reset': 4}, 'nontrivial': 200},
-        'thorough': {'counters': {'roundtrips': 25000, 'byte_identity_checks': 25000, 'fortran_style_files': 6000, 'shipped_files': 7,
+        'thorough': {'counters': {'roundtrips': 25000, 'byte_identity_checks': 25000, 'object_unchanged_by_write_checks': 25000, 'repeated_writes_same_object': 1250, 'fortran_style_files': 6000, 'shipped_files': 7,
                                   'records_resliced_in_situ': 120000},
                      'seen': {'flavour': 2, 'timing_x_reset': 4}, 'nontrivial': 16000},
     },
@@ -227,8 +227,25 @@ def run_roundtrip(ctx, case, tag='gen'):
         inc = build(case)
         m0 = model_of(inc)
         inc.write(fn1, reset=case['reset'])
+        m_after = model_of(inc)
     if g.raised is not None:
         return
+    ctx.count('object_unchanged_by_write_checks')
+    if m_after != m0:
+        d = diff_models(m0, m_after)
+        ctx.violation('write-alters-object:reset=%s' % case['reset'], 'the initial conditions object differs after write(): %s' % (d[0][1] if d else 'model differs'), case)
+        return
+    if case['timing'] is not None:
+        # the same object written again with the other reset value: one call must not leak into the next
+        fn3 = os.path.join(ctx.tmp, 'c13_c.incon')
+        with ctx.guard(case, where='second-write-other-reset') as g:
+            inc.write(fn3, reset=not case['reset'])
+            inc.write(fn3, reset=case['reset'])
+        if g.raised is None:
+            ctx.count('repeated_writes_same_object')
+            if read_bytes(fn3) != read_bytes(fn1):
+                ctx.violation('repeated-write-differs:reset=%s' % case['reset'], 'writing the same object again (after a write with reset=%s in between) gives a different file' % (not case['reset']), case)
+                return
     exp = expected_after_write(m0, case['reset'])
     nv = case['num_variables']
     # what a simulator reads from the first line of a restart file: element count and time
